@@ -154,7 +154,15 @@ func classify(replies, lines []string, known map[string]bool) (class, summary st
 			class, summary = c, s
 		}
 	}
+	// Once an operation was outside the model's supported fragment (UNSUPPORTED: e.g. an Add of
+	// an id that is still live — only a shrunk candidate contains one, the generators avoid
+	// them) the model no longer follows the implementation: what comes after it in this case
+	// is not judged. A failure that needs such an operation is not a failure of the property.
+	tainted := false
 	for i, r := range replies {
+		if tainted && !strings.HasPrefix(r, "UNSUPPORTED") {
+			continue
+		}
 		switch {
 		case strings.HasPrefix(r, "ok"):
 		case strings.HasPrefix(r, "KNOWN "):
@@ -166,6 +174,7 @@ func classify(replies, lines []string, known map[string]bool) (class, summary st
 			}
 		case strings.HasPrefix(r, "UNSUPPORTED"):
 			unsupported++
+			tainted = true
 		case strings.HasPrefix(r, "SPECFAIL"):
 			set("SPECFAIL", r+" @ "+trunc(lines[i], 200))
 		case strings.HasPrefix(r, "DIFF"):
@@ -257,7 +266,10 @@ func (rn *Runner) shrink(d *Driver, s Stream, c any, first caseResult) (any, cas
 			cand := s.Drop(best, lo, hi)
 			budget--
 			r := rn.runOne(d, s, cand)
-			if rank[r.class] >= rank[bestRes.class] && r.class != "" {
+			// a candidate that steps outside the model's supported fragment where the original
+			// did not (dropping a Remove between two Adds of one id makes an "add of a live id")
+			// fails for a reason of its own: it is not a smaller witness of the same failure
+			if rank[r.class] >= rank[bestRes.class] && r.class != "" && r.unsupported <= first.unsupported {
 				best, bestRes = cand, r
 				progress = true
 			} else {
